@@ -146,7 +146,7 @@ def simulate_store(spec, nodes, edges):
     return names, es
 
 
-WSCALES = [-60, -60, -3, 40]     # see centgen.py: dyadic weight scale applied inside the harness
+WSCALES = [-60, -3, -1, 40]     # see centgen.py: dyadic weight scale applied inside the harness
 BIGODD = 1 << 24
 
 
